@@ -59,7 +59,7 @@ def run_iters(ctx, name, recs, texts_path, part, excl="", violation=True, shards
     try:
         with open("%s.0.ndjson" % prefix) as f:
             r = json.loads(f.readline())
-            key = {"fi": "fi", "ci": "ci", "sp": "spn", "rp": "rp", "co": "cells", "x4": "fi"}[part]
+            key = {"fi": "fi", "ci": "ci", "sp": "spn", "rp": "rp", "co": "cells", "x4": "fi", "c5": "rows"}[part]
             ctx.samples.append(dict(space=name, part=part, pattern=r["pat"], status=r["st"], first_histories=r.get(key, [])[:3]))
     except (OSError, ValueError):
         pass
